@@ -1,10 +1,68 @@
-(* C09 property theorems (statements closed by [exact]); filled as the proofs land. *)
-From Tbfmm Require Import Base.Prelude Index.MortonDefs Tree.GroupDefs Tree.BuildDefs Exec.ExecDefs Exec.ExecTsmDefs.
+(* C09 — target/source mode: each target gets each source exactly once, nothing else.
+   Statements only; proofs in Spec/ExactlyOnceTsm.v (composition), Exec/RefineTsm.v (transfer / near-field passes on two trees),
+   Exec/RefineM2M.v, Spec/Geometry.v. *)
+From Tbfmm Require Import Base.Prelude Index.MortonDefs Index.ListsDefs Tree.GroupDefs Tree.BuildDefs Tree.Invariant
+     Exec.ExecDefs Exec.ExecTsmDefs Spec.Elem Spec.Kernel Exec.RefineTsm Spec.ExactlyOnceTsm.
+From Coq Require Import Sorting.Permutation Sorting.Sorted.
 Local Open Scope Z_scope.
 
-Example C09_example_no_assert :
-  forallb (fun c => match c with CAssert _ => false | _ => true end)
-          (execute_tsm 3 false 2 63 (build (parent 3) 4 2 false [5;5;63;0;9;12;9;300;301;511])
-                                    (build (parent 3) 4 2 false [7;63;64;65;300;2;2;100])) = true.
+(* MAIN: sources and targets are numbered independently; [reached st p q] = number of times SOURCE q reached TARGET p.
+   For any two well-formed trees over the same box (any block sizes / grouping modes, any occupancies - sources missing where
+   targets exist and vice versa), any dimension, upper level s <= 2: exactly once, for every (target, source) pair *)
+Theorem C09_tsm_exactly_once : forall d H B mode s src tgt idxs idxt, (0 < d)%nat -> 1 <= H ->
+  tree_ok (parent d) H B mode src -> tree_ok (parent d) H B mode tgt -> particles_ok idxs src -> particles_ok idxt tgt ->
+  Forall (fun i => 0 <= i < 2 ^ ((H - 1) * dz d)) idxs -> Forall (fun i => 0 <= i < 2 ^ ((H - 1) * dz d)) idxt ->
+  idxs <> [] -> idxt <> [] -> s <= 2 ->
+  let st := run (H - 1) (execute_tsm d false s 63 src tgt) st0 in
+  forall p q, 0 <= p < zlen idxt -> 0 <= q < zlen idxs -> reached st p q = 1%nat.
+Proof. exact tsm_exactly_once. Qed.
+Print Assumptions C09_tsm_exactly_once.
+
+(* nothing else: a target's result contains only valid source ids (targets do not interact with each other), and nothing is
+   accumulated anywhere outside the target particles (sources receive no results) *)
+Theorem C09_tsm_only_sources : forall d H B mode s src tgt idxs idxt, (0 < d)%nat -> 1 <= H ->
+  tree_ok (parent d) H B mode src -> tree_ok (parent d) H B mode tgt -> particles_ok idxs src -> particles_ok idxt tgt ->
+  Forall (fun i => 0 <= i < 2 ^ ((H - 1) * dz d)) idxs -> Forall (fun i => 0 <= i < 2 ^ ((H - 1) * dz d)) idxt ->
+  idxs <> [] -> idxt <> [] -> s <= 2 ->
+  let st := run (H - 1) (execute_tsm d false s 63 src tgt) st0 in
+  forall p q, 0 <= p < zlen idxt -> ~ (0 <= q < zlen idxs) -> reached st p q = 0%nat.
+Proof. exact tsm_only_sources. Qed.
+Print Assumptions C09_tsm_only_sources.
+Theorem C09_tsm_only_targets : forall d H B mode s src tgt idxs idxt, (0 < d)%nat -> 1 <= H ->
+  tree_ok (parent d) H B mode src -> tree_ok (parent d) H B mode tgt -> particles_ok idxs src -> particles_ok idxt tgt ->
+  Forall (fun i => 0 <= i < 2 ^ ((H - 1) * dz d)) idxs -> Forall (fun i => 0 <= i < 2 ^ ((H - 1) * dz d)) idxt ->
+  idxs <> [] -> idxt <> [] -> s <= 2 ->
+  let st := run (H - 1) (execute_tsm d false s 63 src tgt) st0 in
+  forall p q, ~ (0 <= p < zlen idxt) -> reached st p q = 0%nat.
+Proof. exact tsm_only_targets. Qed.
+Print Assumptions C09_tsm_only_targets.
+
+(* no internal assertion can fire, for any flags and upper level, periodic lists or not *)
+Theorem C09_tsm_no_assert : forall d per H B mode stop flags src tgt idxs idxt, (0 < d)%nat -> 1 <= H ->
+  tree_ok (parent d) H B mode src -> tree_ok (parent d) H B mode tgt -> particles_ok idxs src -> particles_ok idxt tgt ->
+  Forall (fun i => 0 <= i < 2 ^ ((H - 1) * dz d)) idxs -> Forall (fun i => 0 <= i < 2 ^ ((H - 1) * dz d)) idxt ->
+  idxs <> [] -> idxt <> [] ->
+  no_assert (execute_tsm d per stop flags src tgt).
+Proof. exact tsm_no_assert. Qed.
+Print Assumptions C09_tsm_no_assert.
+
+(* the refinement lemmas specific to two trees: lists built on target groups, mapped onto source groups *)
+Theorem C09_tsm_m2l_level_exact : forall d per l sgroups tgroups, level_ok sgroups -> level_ok tgroups ->
+  (forall t, In t (level_cells tgroups) -> zlen (ilist_cell d per l t) <= nb_interactions d) ->
+  no_assert (tsm_m2l_level d per l sgroups tgroups) /\
+  Permutation (elementary (tsm_m2l_level d per l sgroups tgroups)) (spec_m2l_tsm d per l (level_cells sgroups) (level_cells tgroups)).
+Proof. exact tsm_m2l_level_exact. Qed.
+Print Assumptions C09_tsm_m2l_level_exact.
+Theorem C09_tsm_p2p_groups_exact : forall d per L spgs tpgs, Forall pgroup_ok spgs -> Forall pgroup_ok tpgs ->
+  StronglySorted Z.lt (flat_map pg_indices spgs) -> StronglySorted Z.lt (flat_map pg_indices tpgs) ->
+  no_assert (tsm_p2p_groups d per L spgs tpgs) /\
+  Permutation (elementary (tsm_p2p_groups d per L spgs tpgs)) (spec_p2p_tsm d per L (flat_map pg_leaves spgs) (flat_map pg_leaves tpgs)).
+Proof. exact tsm_p2p_groups_exact. Qed.
+Print Assumptions C09_tsm_p2p_groups_exact.
+
+Example C09_example :
+  let src := build (parent 3) 4 2 false [5;5;63;0;9;12;9;300;301;511] in
+  let tgt := build (parent 3) 4 3 true [7;63;64;65;300;2;2;100;448] in
+  let st := run 3 (execute_tsm 3 false 2 63 src tgt) st0 in
+  forallb (fun p => forallb (fun q => Nat.eqb (reached st p q) 1%nat) (zseq 10)) (zseq 9) = true.
 Proof. vm_compute. reflexivity. Qed.
-Print Assumptions C09_example_no_assert.
